@@ -613,8 +613,24 @@ func c05RunOne(data []byte) (res c05Result) {
 						fail("malformed-result", w)
 					}
 				}
+				if !dec.HasNext() { // past the end: an error, no picture, no crash
+					entry = "AnimDecoder.NextFrame past the end"
+					if fr, _, e4 := dec.NextFrame(); e4 == nil || fr != nil {
+						fail("malformed-result", fmt.Sprintf("NextFrame past the last frame returned (%v, err=%v)", fr != nil, e4))
+					}
+				}
+				entry = "AnimDecoder.Reset + replay"
 				dec.Reset()
+				if dec.HasNext() {
+					if fr, _, e4 := dec.NextFrame(); e4 == nil && (fr == nil || fr.Rect.Dx() != an.CanvasWidth || fr.Rect.Dy() != an.CanvasHeight) {
+						fail("malformed-result", "first snapshot after Reset has the wrong size")
+					}
+				}
 			}
+		}
+		entry = "Animation.DecodeFrames (second call)"
+		if e1b := an.DecodeFrames(); (e1 == nil) != (e1b == nil) { // decoded frames are skipped, a bad frame fails again
+			fail("parallel-serial-disagree", fmt.Sprintf("DecodeFrames err=%v, called again on the same Animation err=%v", e1, e1b))
 		}
 		// a tolerant player: whatever DecodeFramesParallel reported, the frames it left behind are used
 		if an2 != nil {
